@@ -58,6 +58,8 @@ class StmtsMixin:
                     tg = s.targets[0] if isinstance(s, ast.Assign) else s.target
                     if isinstance(tg, ast.Name):
                         gh = self.ghost_after.get("assign:" + tg.id)
+                if gh is None and getattr(s, "_pyvc_ghost_key", None):
+                    gh = self.ghost_after.get(s._pyvc_ghost_key)
             if gh is not None:
                 for s1, kind, val in res:
                     if kind == "fall":
